@@ -23,11 +23,13 @@ EXPLANATION = (
     'with stable node addresses, symbolic keys / values / sizes / arguments: the constructor establishes and every operation preserves the '
     'representation invariant (acyclic head->tail chain == the pool\'s live nodes, prev/next mirror, key pointer, total_size == sum) and refines '
     'the step of an abstract recency list (MRU first) written from the property statement: return values, exceptions, size(), count(), evicted == last. '
-    'One inductive step from an arbitrary invariant state => all histories over containers of that size.')
+    'One inductive step from an arbitrary invariant state => all histories over containers of that size. '
+    'In both parts link_item / unlink_item / touch_item / change_item_size / after_emplace are inlined into their callers (the real text, not their '
+    'contracts; their own contracts are separate obligation groups); only the hash-map operations are replaced by contracts.')
 TRUSTED = [
     'stubs/C12_umap.h: the std::unordered_map model. Concrete mode: a pool of nodes {first, second, used} with stable addresses (find/at/emplace/'
     'erase/clear/swap/size/empty; erase and clear poison the freed node and assert liveness; swap exchanges the pool handles so node addresses '
-    'survive, as the standard guarantees). Abstract mode: contracts over ghosts (g_node = the node stored for the key under discussion, g_new = the '
+    'survive, as the standard guarantees; find accepts a lookup hint from the harness that is asserted before it is relied on). Abstract mode: contracts over ghosts (g_node = the node stored for the key under discussion, g_new = the '
     'node the next successful emplace hands out; erase havocs the freed node).',
     'contracts/C12_list.h: the local list contracts and the neighbourhood configurations; harness/C12/shapes.c: the reference recency list '
     '(transcription of the property statement) and the representation invariant',
@@ -274,15 +276,15 @@ def map_units(ctx, src, with_insert_const):
       ret_zero='0', may_throw=['umap_at'])
     IT = [Rule(r'auto\s+item_it\s*=', 'umap_iter item_it =', count=1, regex=True)]
     INS = IT + ref_rules('i', 'auto')
-    F(r'bool insert\(KeyT&& k, ValueT&& v, size_t size = 1\)', 'bool LRUMap_insert(LRUMap* self, KeyT k, ValueT v, size_t size)', INS)
-    F(r'bool emplace\(KeyT&& k, ValueT&& v, size_t size = 1\)', 'bool LRUMap_emplace(LRUMap* self, KeyT k, ValueT v, size_t size)',
+    F(r'bool insert\(KeyT&& k, ValueT&& v, size_t size = [^,)]+\)', 'bool LRUMap_insert(LRUMap* self, KeyT k, ValueT v, size_t size)', INS)
+    F(r'bool emplace\(KeyT&& k, ValueT&& v, size_t size = [^,)]+\)', 'bool LRUMap_emplace(LRUMap* self, KeyT k, ValueT v, size_t size)',
       [Rule(r'auto\s+emplace_ret\s*=', 'umap_emplace_ret emplace_ret =', count=1, regex=True)] + ref_rules('i', 'auto'))
     F(r'bool erase\(const KeyT& k\)', 'bool LRUMap_erase(LRUMap* self, KeyT k)',
       IT + ref_rules('item', 'Item') + [Rule(r'items\.erase\(', 'items.erase_it(', count='+', regex=True)])
     F(r'void clear\(\)', 'void LRUMap_clear(LRUMap* self)')
-    F(r'bool change_size\(const KeyT& k, size_t new_size, bool touch = true\)', 'bool LRUMap_change_size(LRUMap* self, KeyT k, size_t new_size, bool touch)',
+    F(r'bool change_size\(const KeyT& k, size_t new_size, bool touch = [^,)]+\)', 'bool LRUMap_change_size(LRUMap* self, KeyT k, size_t new_size, bool touch)',
       ref_rules('i', 'Item') + method_rules(P) + [LowerTryCatch(['umap_at'], '0')])
-    F(r'bool touch\(const KeyT& k, ssize_t new_size = -1\)', 'bool LRUMap_touch(LRUMap* self, KeyT k, ssize_t new_size)',
+    F(r'bool touch\(const KeyT& k, ssize_t new_size = [^,)]+\)', 'bool LRUMap_touch(LRUMap* self, KeyT k, ssize_t new_size)',
       ref_rules('i', 'Item') + method_rules(P) + [LowerTryCatch(['umap_at'], '0')])
     F(r'size_t size\(\) const', 'size_t LRUMap_size(const LRUMap* self)')
     F(r'size_t count\(\) const', 'size_t LRUMap_count(const LRUMap* self)')
@@ -294,12 +296,38 @@ def map_units(ctx, src, with_insert_const):
     uc = None
     if with_insert_const:
         uc = Unit(ctx, 'LRUMap_insert_const')
-        F(r'bool insert\(const KeyT& k, const ValueT& v, size_t size = 1\)', 'bool LRUMap_insert_const(LRUMap* self, KeyT k, ValueT v, size_t size)', INS, unit=uc)
+        F(r'bool insert\(const KeyT& k, const ValueT& v, size_t size = [^,)]+\)', 'bool LRUMap_insert_const(LRUMap* self, KeyT k, ValueT v, size_t size)', INS, unit=uc)
         uc.write()
     th.raw('\n'.join(protos))
     th.write(suffix='.h', scan=True)
     u.write()
     return th, u, uc
+
+
+# ------------------------------------------------------------------------------------------------ default arguments
+
+def defaults_unit(ctx, src):
+    """default arguments are dropped from the C functions (call sites pass them explicitly); their values are part of the API
+    ("touch(k)" must not change the size, "change_size(k, s)" touches) and are cut out here as macros"""
+    u = Unit(ctx, 'defaults')
+    D = [('LRUSet_insert_size', SET_HH, r'bool insert\(const K& k, size_t size = ([^,)]+)\);'),
+         ('LRUSet_emplace_size', SET_HH, r'bool emplace\(K&& k, size_t size = ([^,)]+)\);'),
+         ('LRUSet_touch_new_size', SET_HH, r'bool touch\(const K& k, ssize_t new_size = ([^,)]+)\);'),
+         ('LRUMap_insert_size', MAP_HH, r'bool insert\(KeyT&& k, ValueT&& v, size_t size = ([^,)]+)\)'),
+         ('LRUMap_insert_const_size', MAP_HH, r'bool insert\(const KeyT& k, const ValueT& v, size_t size = ([^,)]+)\)'),
+         ('LRUMap_emplace_size', MAP_HH, r'bool emplace\(KeyT&& k, ValueT&& v, size_t size = ([^,)]+)\)'),
+         ('LRUMap_change_size_touch', MAP_HH, r'bool change_size\(const KeyT& k, size_t new_size, bool touch = ([^,)]+)\)'),
+         ('LRUMap_touch_new_size', MAP_HH, r'bool touch\(const KeyT& k, ssize_t new_size = ([^,)]+)\)')]
+    for name, f, rx in D:
+        u.raw('#define DEF_%s (%s)' % (name, u.snippet(src, f, rx, group=1).strip()))
+    # no other defaulted parameter may exist in the two classes
+    for f in (SET_HH, MAP_HH):
+        n = len(re.findall(r'\b[\w:]+[\s&*]+\w+\s*=\s*[^=,;(){}]+[,)]', src.text(f)))      # `T name = value,` / `T name = value)`
+        want = sum(1 for _, ff, _ in D if ff == f)
+        if n != want:
+            raise ExtractionBreak('%s: %d defaulted parameters found, the table covers %d' % (f, n, want))
+    u.write(suffix='.h', scan=False)
+    return u
 
 
 # ------------------------------------------------------------------------------------------------ instantiation gate
@@ -453,10 +481,12 @@ def shape_groups(cont, ops, skip, nmax, tier, extra_defs, driver):
         for b in sorted({(), sh[(i * 7 + 5) % len(sh)]}):
             gs.append(G('%s.swap{%d:%s<->%s}' % (cont, nmax, tag, ','.join(map(str, b)) or 'empty'), 'swap', a, b))
     gs.append(G('%s.ctor{%d}' % (cont, nmax), 'ctor', ()))
-    g = G('%s.reference_total{%d}' % (cont, nmax), 'observe', ())
-    g.entry, g.function, g.replay, g.min_post = 'h_model_total', 'reference recency list (harness/C12/shapes.c)', None, 2
-    g.first, g.bound = 'cvc5', 'reference lists of <= %d entries: the maintained total is the sum of the sizes after every model primitive' % nmax
-    gs.append(g)
+    if cont == 'LRUSet':     # the reference list is the same code for both containers
+        g = G('reference.total_is_sum{%d}' % nmax, 'observe', ())
+        g.entry, g.function, g.replay, g.min_post = 'h_model_total', 'reference recency list (harness/C12/shapes.c)', None, 2
+        g.first, g.stage1, g.timeout = 'cvc5', 150, 900          # closed 64-bit sum identities: an SMT job (cvc5 8 s / 60 s; SAT minutes)
+        g.bound = 'reference lists of <= %d entries: the maintained total is the sum of the sizes after every model primitive' % nmax
+        gs.append(g)
     return gs
 
 
@@ -484,6 +514,12 @@ def plan(ctx):
     ctx.functions_under_contract = us.functions + um.functions + (uc.functions if uc else [])
     groups = [gate_group('insert(const KeyT&, const ValueT&, size_t)', 'insert_const', not bad_insert, sum(bad_insert, [])),
               gate_group('at(const KeyT&) const', 'at_const', not bad_at, sum(bad_at, []))]
+    defaults_unit(ctx, src)
+    groups.append(Group(name='LRUSet+LRUMap.default_arguments', harness='harness/C12/defaults.c', entry='h_defaults',
+                        function='default arguments of insert / emplace / touch / change_size', kind='loop-free', min_post=6,
+                        clause_note='touch(k) leaves the size alone (new_size default < 0), LRUMap::change_size(k, s) touches (default true), '
+                                    'sizes default to 0 (LRUSet) / 1 (LRUMap)',
+                        replay=Replay(driver='C12/lru.cc', mode='defaults', extra=['-'], sources=[])))
     # members that g++ rejects have no meaning to verify: their groups are left out (the gate group above reports them)
     skip = set()
     if bad_insert:
